@@ -46,7 +46,7 @@ def definition_holds(out, data, W):
 def run(ctx):
     from fast_ticc import data_preparation as dp
     rng = np.random.default_rng(ctx.seed)
-    ctx.proof_layer(allowed_axioms=(), coq_deps=["Corr/RunStacking"], gen=["data_preparation"])
+    ctx.proof_layer(allowed_axioms=(), coq_deps=["Corr/RunStacking"], gen=["data_preparation", "front_split"])
     core.note_drift(ctx, ANCHORS)
     cov = core.LineCoverage()
     with cov:
